@@ -13,7 +13,7 @@ use dvb_gse_rust::label::Label;
 pub struct Prop;
 pub static P: Prop = Prop;
 
-const SCHEDULES: usize = 14;
+const SCHEDULES: usize = 16;
 
 fn sched_size(kind: usize, rng: &mut Rng, i: usize, remaining: usize) -> usize {
     match kind {
@@ -55,6 +55,10 @@ fn sched_size(kind: usize, rng: &mut Rng, i: usize, remaining: usize) -> usize {
                 13 + rng.below(300)
             }
         }
+        // 14/15: the first buffer is k bytes too short for a complete packet (handled by the caller),
+        // continuations: exact end packet / a few bytes around it
+        14 => remaining + 7,
+        15 => remaining + 7 + rng.below(3) - 1,
         // descending ramp
         12 => 3 + (600 - (i * 37) % 600),
         // ascending ramp
@@ -67,7 +71,7 @@ impl Property for Prop {
         "C02"
     }
     fn rule(&self) -> &'static str {
-        "trains: key -> seeded (PDU length from the size lattice / ranges up to 65533 - label, content class, label case incl. substituted first fragment, frag id 0..=255, protocol type >= 0x0600, one of 14 buffer-size schedules: constant 13/14/20/100/4096/4097/4098/5000/70000, random mix with tiny buffers, payload-fits-but-CRC-does-not, land-on-PDU-end-then-tiny, descending ramp, ascending ramp; receiver storage == PDU length or 70000). Every encap/encap_frag call and every decap call is an evaluation. A train is non-trivial when it was fragmented (>= 2 packets), completed, and the receiver delivered; fingerprint = (PDU length, schedule, label case, frag id, number of packets)."
+        "trains: key -> seeded (PDU length from the size lattice / ranges up to 65533 - label, content class, label case incl. substituted first fragment, frag id 0..=255, protocol type >= 0x0600, one of 16 buffer-size schedules: constant 13/14/20/100/4096/4097/4098/5000/70000, random mix with tiny buffers, payload-fits-but-CRC-does-not, land-on-PDU-end-then-tiny, descending ramp, ascending ramp, first buffer 1..8 bytes short of the complete packet followed by exact-fit end buffers; receiver storage == PDU length or 70000). Every encap/encap_frag call and every decap call is an evaluation. A train is non-trivial when it was fragmented (>= 2 packets), completed, and the receiver delivered; fingerprint = (PDU length, schedule, label case, frag id, number of packets)."
     }
     fn gens(&self, cx: &Cx) -> Vec<Gen> {
         vec![Gen { name: "trains", count: cx.n(30_000, 2_000_000), exhaustive: false }, Gen { name: "lengths", count: 65534, exhaustive: true }]
@@ -148,7 +152,13 @@ impl Property for Prop {
                 break;
             }
             let remaining = plen - ctx.map(|c: dvb_gse_rust::gse_encap::ContextFrag| c.len_pdu_frag() as usize).unwrap_or(0);
-            let b = sched_size(sched, &mut rng, calls - 1, remaining);
+            let mut b = sched_size(sched, &mut rng, calls - 1, remaining);
+            if ctx.is_none() && sched >= 14 && calls == 1 {
+                // one of: 1..=8 bytes short of the complete packet (label as written)
+                let written = if primed { 0 } else { ll };
+                let exact = 4 + written + plen;
+                b = exact.saturating_sub(1 + (key as usize / SCHEDULES) % 8).max(13);
+            }
             let spec = match ctx {
                 None => CallSpec { func: Func::Encap, pdu: &pdu, frag_id, ptype, label, exts: None, ctx: None, buf_len: b },
                 Some(c) => CallSpec { func: Func::Frag, pdu: &pdu, frag_id, ptype, label, exts: None, ctx: Some(c), buf_len: b },
